@@ -1,0 +1,32 @@
+//go:build verif
+
+package parser
+
+// Observation points for the verification harness (build tag verif only).
+// VerifHook, when set, receives one event per loop iteration / protocol step of the parser.
+// pid identifies the parser instance (imports and generic instantiations create nested parsers).
+var VerifHook func(kind string, pid, a, b int)
+
+var (
+	verifIDs    = map[*parser]int{}
+	verifNextID = 0
+)
+
+func verifTrace(p *parser, kind string, a, b int) {
+	if VerifHook == nil {
+		return
+	}
+	id, ok := verifIDs[p]
+	if !ok {
+		verifNextID++
+		id = verifNextID
+		verifIDs[p] = id
+	}
+	VerifHook(kind, id, a, b)
+}
+
+// forget all parser identities (called by the harness between inputs)
+func VerifReset() {
+	verifIDs = map[*parser]int{}
+	verifNextID = 0
+}
